@@ -262,6 +262,10 @@ def config(draw, families=("simple", "simple_n", "distance"), ne=None, width="ra
             cfg["obs_noise_ne"] = draw(st.sampled_from([0.5, 1.0, 2.0, 5.0]))
         if chance(draw, 3):
             cfg["non_emitting_length_factor"] = draw(st.sampled_from([0.25, 0.5, 0.9, 1.0]))
+    if fam == "nk":
+        cfg["beta"] = draw(st.sampled_from([1 / 6, 0.5, 1.0, 2.0]))
+        if cfg["non_emitting_states"] and chance(draw, 3):
+            cfg["beta_ne"] = draw(st.sampled_from([0.25, 1.0, 4.0]))
     if fam == "distance":
         if chance(draw, 5):
             cfg["dist_noise"] = draw(st.sampled_from([0.25, 0.5, 1.0, 2.0]))
@@ -283,6 +287,7 @@ def match_case(draw, max_nodes=8, max_len=7, min_len=1, graph_kw=None, trace_kw=
 
 @st.composite
 def ne_case(draw, max_nodes=8, max_len=7, families=("simple", "simple_n", "distance"), width=None, first_order=False):
+    families = tuple(families)
     """Cases built so that non-emitting states are needed: long hops, little noise, sparse observations."""
     g = draw(planar_graph(min_nodes=4, max_nodes=max_nodes, families=["chain"], chain_steps=[1.0, 1.5, 2.0], self_listed=False))
     t = draw(trace_on(g, min_len=2, max_len=max_len, kinds=["sparse"], sigmas=[0.05, 0.1, 0.2]))
@@ -359,7 +364,7 @@ def scale_trace(trace, unit):
 
 def scale_config(cfg, unit):
     out = dict(cfg)
-    for k in ("obs_noise", "obs_noise_ne", "dist_noise", "dist_noise_ne", "max_dist", "max_dist_init"):
+    for k in ("obs_noise", "obs_noise_ne", "dist_noise", "dist_noise_ne", "max_dist", "max_dist_init", "beta", "beta_ne"):
         if out.get(k) is not None:
             out[k] = out[k] * unit
     return out
